@@ -89,6 +89,8 @@ non-trivial = has >= 1 data block; distinct = distinct (block subset, pointer or
                 obs.violation(format!("well-formed message refused: {}", sig), detail.to_string(), replay);
             }
             Ok(m) => {
+                // one result in four is examined through a clone: a copy reports what the original does
+                let m = if i % 4 == 2 { obs.count("results_examined_through_a_clone", 1); m.clone() } else { m };
                 let mut diffs = cmp31::compare(&spec, &m);
                 if let Some(t) = patched_type {
                     // the comparer expects the standard letters: what must be found is the byte written
@@ -110,6 +112,23 @@ non-trivial = has >= 1 data block; distinct = distinct (block subset, pointer or
                         obs.violation(format!("field {}", d.field), d.detail.clone(), replay.clone());
                     }
                 }
+            }
+        }
+        // a reader that fails once, transiently, inside the message: an error is fine, the right
+        // message is fine, one put together from other bytes is not
+        if i % 16 == 9 {
+            match super::decode_through_flaky_reader(&body, i, |rd| decode_digital_radar_data(rd)) {
+                Err(p) => obs.violation("decode_digital_radar_data panics with a reader that fails transiently", p, json!({"case_index": i})),
+                Ok(Some(m2)) => {
+                    let diffs = cmp31::compare(&spec, &m2);
+                    if patched_type.is_none() {
+                        for d in diffs.iter().take(2) {
+                            obs.violation(format!("field {}", d.field), format!("{} [after a transient read error inside the message]", d.detail), json!({"case_index": i, "subset": subset}));
+                        }
+                    }
+                    obs.count("transient_read_errors_survived", 1);
+                }
+                Ok(None) => obs.count("transient_read_errors_reported_as_errors", 1),
             }
         }
         // A *namesake*: one case in sixteen is followed at once, on the same thread, by a different
